@@ -28,7 +28,10 @@ impl Element {
 
 impl Hash for Element {
     fn hash<H: core::hash::Hasher>(&self, state: &mut H) {
-        self.inner.hash(state);
+        // Equal elements must hash equally. Equality identifies both curve points of a
+        // coset and all projective scalings, so hash the canonical encoding rather than
+        // the internal representative.
+        self.vartime_compress().0.hash(state);
     }
 }
 
@@ -123,7 +126,8 @@ impl Zero for Element {
     }
 
     fn is_zero(&self) -> bool {
-        self.inner.is_zero()
+        // Must agree with `== Element::zero()` for every representative of the identity.
+        self.is_identity()
     }
 }
 
